@@ -189,8 +189,13 @@ def _takeLocks(locks, cmdName, path, lockType, nolocks, ntry, verbose):
     atexit.register(cleanup)            # regular exit
 
     import signal
-    signal.signal(signal.SIGINT, cleanup) # user killed us
-    signal.signal(signal.SIGTERM, cleanup)
+    def killed(signum, frame):          # user killed us
+        cleanup()
+        signal.signal(signum, signal.SIG_DFL) # and we die of it, as we would have without this handler;
+        os.kill(os.getpid(), signum)    # returning from here would let the command carry on without its locks
+
+    signal.signal(signal.SIGINT, killed)
+    signal.signal(signal.SIGTERM, killed)
 
     return locks
 
